@@ -141,3 +141,6 @@ Definition get_id_from_url (serve url : list N) : N :=
   | [] => parse_uid (fname_prefix fname)
   | _ => if list_N_eqb dir serve then parse_uid (fname_prefix fname) else 0
   end.
+
+(* vocabulary of the theorems: a path element that is neither empty nor "." nor ".." *)
+Definition real_elem (e : list N) : Prop := e <> [] /\ is_dot e = false /\ is_dotdot e = false.
